@@ -411,51 +411,54 @@ class Result:
         self.tags = []
         self.nontrivial = False
         self.skipped = None
+        self.materialized = None
 
 
 def _post_obs(nl, defs_in_order):
     return {"cnet": canon.cnetlist(nl), "refs": [len(d._references) for lib in nl._libraries for d in lib._definitions]}
 
 
-def eval_uniquify(spec, drv):
-    from engines import xform_gen as G
+def uniquify_round(nl, ctr, drv, R, rno):
+    """One checked uniquify on the live netlist: correspondence with the model on the dump taken now,
+    P before/after, idempotence.  Returns False when the history cannot go on (skip / raise)."""
     import spydrnet.uniquify as U
-    R = Result()
-    nl, defs, orphans = G.build(spec)
-    pre_wf = canon.wf_problems(nl)
-    if pre_wf:
-        R.skipped = "input-not-wf"
-        return R
-    design, side = dump(nl, spec["ctr"])
+    tag = "" if rno == 0 else "@round%d" % rno
+    if canon.wf_problems(nl):
+        R.skipped = R.skipped or ("input-not-wf" if rno == 0 else None)
+        R.tags.append("hist.stop:not-wf")
+        return False
     try:
+        design, side = dump(nl, ctr)
         tree0, part0 = elaborate(nl, "pos")
-    except IllFormed:
-        R.skipped = "input-not-elaborable"
-        return R
+    except (IllFormed, ValueError, KeyError):
+        R.skipped = R.skipped or ("input-not-elaborable" if rno == 0 else None)
+        R.tags.append("hist.stop:not-elaborable")
+        return False
     chk = drv.ask({"fn": "spec", "design": design})
     if "error" in chk or not chk["wf"]:
-        R.skipped = "input-out-of-domain"
-        return R
+        R.skipped = R.skipped or ("input-out-of-domain" if rno == 0 else None)
+        R.tags.append("hist.stop:out-of-domain")
+        return False
     pre_ids = {id(d) for lib in nl._libraries for d in lib._definitions}
     pre_lib_of = {id(d): d._library for lib in nl._libraries for d in lib._definitions}
     n_pre = len(pre_ids)
     ans = drv.ask({"fn": "uniquify", "fuel": UFUEL, "design": design})
     if "error" in ans:
-        R.corr.append(("driver answers uniquify", None, ans["error"], None))
-        return R
+        R.corr.append(("driver answers uniquify" + tag, None, ans["error"], None))
+        return False
     if not ans["finished"]:
         R.corr.append(("uniquify model finished within %d iterations (hypothesis `finished` of the theorems)" % UFUEL, None, False, None))
-        return R
+        return False
     mo = ans["design"]
     n_new_named = sum(1 for D in mo["defs"][n_pre:] if D["name"] is not None)
-    skipped_ctr = ans["ok"] and (mo["ctr"] - spec["ctr"] != n_new_named)
-    R.tags.append("uniq.clones=%d" % min(len(mo["defs"]) - n_pre, 20))
+    skipped_ctr = ans["ok"] and (mo["ctr"] - ctr != n_new_named)
+    R.tags.append("uniq.clones%s=%d" % ("" if rno == 0 else "@later", min(len(mo["defs"]) - n_pre, 20)))
     if skipped_ctr:
         R.tags.append("uniq.counter-skips-taken-name")
-    R.nontrivial = len(mo["defs"]) > n_pre
+    R.nontrivial = R.nontrivial or len(mo["defs"]) > n_pre
     if not ans["ok"]:
-        R.corr.append(("model found a free name (pickCtr_some)", None, "ok=false", None))
-    U.MOD_NAME_UID = spec["ctr"]
+        R.corr.append(("model found a free name (uniquify_never_stuck)", None, "ok=false", None))
+    U.MOD_NAME_UID = ctr
     exc = None
     try:
         U.uniquify(nl)
@@ -464,60 +467,104 @@ def eval_uniquify(spec, drv):
     if exc is not None:
         fam = exc_family(exc)
         if fam == "value" and skipped_ctr:
-            R.spec.append((SIG_CLASH, "uniquify raised ValueError: the name <definition>_sdn_unique_%d.. is already taken in the library; the netlist is left half-transformed" % spec["ctr"]))
+            R.spec.append((SIG_CLASH, "uniquify raised ValueError: the name <definition>_sdn_unique_%d.. is already taken in the library; the netlist is left half-transformed" % ctr))
             R.corr.append(("uniquify post-state", "raises value", "returns", SIG_CLASH))
         else:
-            R.spec.append(("uniquify.raises." + fam, "uniquify raised %s" % type(exc).__name__))
-        return R
+            R.spec.append(("uniquify.raises." + fam, "uniquify raised %s%s" % (type(exc).__name__, tag)))
+        return False
     # ---- correspondence
     obs = _post_obs(nl, None)
     exp = rebuild(mo, side)
     dff = first_diff(obs["cnet"], exp)
     sig = SIG_CLASH if skipped_ctr else None
     if dff:
-        R.corr.append(("uniquify post-state dump", dff, None, sig))
+        R.corr.append(("uniquify post-state dump" + tag, dff, None, sig))
     mrefs = [mo["refcount"][x] for ids in mo["order"] for x in ids]
     if obs["refs"] != mrefs:
-        R.corr.append(("uniquify reference-set sizes", obs["refs"], mrefs, sig))
+        R.corr.append(("uniquify reference-set sizes" + tag, obs["refs"], mrefs, sig))
     if U.MOD_NAME_UID != mo["ctr"]:
-        R.corr.append(("uniquify name counter", U.MOD_NAME_UID, mo["ctr"], sig))
+        R.corr.append(("uniquify name counter" + tag, U.MOD_NAME_UID, mo["ctr"], sig))
     # ---- P on the implementation
+    ok = True
     wf = canon.wf_problems(nl)
     if wf:
-        R.spec.append(("uniquify.wf." + wf[0].replace(" ", "_")[:40], "; ".join(wf[:3])))
+        R.spec.append(("uniquify.wf." + wf[0].replace(" ", "_")[:40], "; ".join(wf[:3]) + tag))
+        ok = False
     up = unique_problems(nl)
     if up:
-        R.spec.append(("uniquify.not_unique", "; ".join(up[:3])))
+        R.spec.append(("uniquify.not_unique", "; ".join(up[:3]) + tag))
     try:
         tree1, part1 = elaborate(nl, "pos")
         if tree1 != tree0:
             ks = sorted(set(tree0) ^ set(tree1), key=repr) or [k for k in tree0 if tree0[k] != tree1[k]]
-            R.spec.append(("uniquify.elab.tree_changed", "first differing path %r" % (ks[:1],)))
+            R.spec.append(("uniquify.elab.tree_changed", "first differing path %r%s" % (ks[:1], tag)))
         elif part1 != part0:
             ks = [e for e in part0 if part0[e] != part1.get(e)]
-            R.spec.append(("uniquify.elab.partition_changed", "endpoint %r: class %r -> %r" % (ks[0], part0[ks[0]], part1.get(ks[0]))))
+            R.spec.append(("uniquify.elab.partition_changed", "endpoint %r: class %r -> %r%s" % (ks[0], part0[ks[0]], part1.get(ks[0]), tag)))
     except IllFormed as e:
-        R.spec.append(("uniquify.elab.ill_formed", str(e)))
+        R.spec.append(("uniquify.elab.ill_formed", str(e) + tag))
+        ok = False
     fp = fresh_name_problems(nl, pre_ids, pre_lib_of)
     if fp:
-        R.spec.append(("uniquify.names." + fp[0][0], "; ".join(m for _, m in fp[:3])))
+        R.spec.append(("uniquify.names." + fp[0][0], "; ".join(m for _, m in fp[:3]) + tag))
     # second run changes nothing
     c0 = U.MOD_NAME_UID
     try:
         U.uniquify(nl)
         obs2 = _post_obs(nl, None)
         if obs2 != obs or U.MOD_NAME_UID != c0:
-            R.spec.append(("uniquify.not_idempotent", first_diff(obs["cnet"], obs2["cnet"]) or "reference sets / counter changed"))
+            R.spec.append(("uniquify.not_idempotent", (first_diff(obs["cnet"], obs2["cnet"]) or "reference sets / counter changed") + tag))
     except Exception as e:  # noqa
-        R.spec.append(("uniquify.second_run_raises." + exc_family(e), type(e).__name__))
+        R.spec.append(("uniquify.second_run_raises." + exc_family(e), type(e).__name__ + tag))
+        ok = False
     # model-side spec on the implementation's post-state (decidable WF from the Lean Spec)
     try:
         d2, _ = dump(nl, U.MOD_NAME_UID)
         a2 = drv.ask({"fn": "spec", "design": d2})
         if not a2.get("wf"):
-            R.spec.append(("uniquify.wf.lean_wfCheck", "Spec.WF false on the post-state dump"))
+            R.spec.append(("uniquify.wf.lean_wfCheck", "Spec.WF false on the post-state dump" + tag))
+            ok = False
     except Exception as e:  # noqa
-        R.spec.append(("uniquify.wf.undumpable", type(e).__name__))
+        R.spec.append(("uniquify.wf.undumpable", type(e).__name__ + tag))
+        ok = False
+    return ok and not R.spec
+
+
+def history_rounds(spec):
+    """[(explicit ops | None)] for the rounds after the first transform"""
+    if spec.get("history") is not None:
+        return [r.get("edits", []) for r in spec["history"]]
+    return [None] * int(spec.get("hist_rounds", 0))
+
+
+def eval_uniquify(spec, drv):
+    from engines import xform_gen as G, xform_hist as H
+    import spydrnet.uniquify as U
+    import random
+    R = Result()
+    nl, defs, orphans = G.build(spec)
+    rounds = history_rounds(spec)
+    hrng = random.Random(stable_hash([spec.get("hist_seed", 0), "hist"]))
+    applied = []
+    go = uniquify_round(nl, spec["ctr"], drv, R, 0)
+    for rno, ops in enumerate(rounds, 1):
+        if not go:
+            break
+        if ops is None:
+            ops = H.gen_ops(hrng, nl, str(rno))
+        done = H.apply_ops(nl, ops, str(rno))
+        applied.append({"edits": done})
+        if H.live_unfold_size(nl, MAX_UNFOLD) is None:
+            R.tags.append("hist.stop:too-large-or-cyclic")
+            break
+        R.tags.append("hist.round")
+        for op in done:
+            R.tags.append("hist.op:" + op[0])
+        go = uniquify_round(nl, U.MOD_NAME_UID, drv, R, rno)
+    if rounds:
+        m = {k: v for k, v in spec.items() if k not in ("hist_seed", "hist_rounds", "history")}
+        m["history"] = applied
+        R.materialized = m
     return R
 
 
@@ -527,13 +574,34 @@ def eval_flatten(spec, drv):
     import spydrnet.flatten as F
     R = Result()
     nl, defs, orphans = G.build(spec)
-    if spec.get("pre_uniquify"):
+    rounds = history_rounds(spec)
+    if spec.get("pre_uniquify") or rounds:
+        # history on ONE netlist: uniquify, then per round public-API edits and uniquify again; the
+        # flatten at the end is the transform under test
+        from engines import xform_hist as H
+        import random
+        hrng = random.Random(stable_hash([spec.get("hist_seed", 0), "hist"]))
+        applied = []
         U.MOD_NAME_UID = 0
         try:
             U.uniquify(nl)
+            for rno, ops in enumerate(rounds, 1):
+                if ops is None:
+                    ops = H.gen_ops(hrng, nl, str(rno))
+                applied.append({"edits": H.apply_ops(nl, ops, str(rno))})
+                if H.live_unfold_size(nl, MAX_UNFOLD) is None:
+                    R.skipped = "history-too-large-or-cyclic"
+                    return R
+                U.uniquify(nl)
+                R.tags.append("hist.round")
         except Exception:
             R.skipped = "pre-uniquify-raised"
             return R
+        if rounds:
+            m = {k: v for k, v in spec.items() if k not in ("hist_seed", "hist_rounds", "history")}
+            m["history"] = applied
+            m["pre_uniquify"] = True
+            R.materialized = m
     if canon.wf_problems(nl):
         R.skipped = "input-not-wf"
         return R
@@ -692,6 +760,16 @@ def _drop_def(spec, di):
 
 def candidates(spec):
     nd = len(spec["defs"])
+    hist = spec.get("history")
+    if hist:
+        s = json.loads(json.dumps(spec))
+        s["history"] = s["history"][:-1]
+        yield s
+        for ri in range(len(hist) - 1, -1, -1):
+            for oi in range(len(hist[ri]["edits"]) - 1, -1, -1):
+                s = json.loads(json.dumps(spec))
+                del s["history"][ri]["edits"][oi]
+                yield s
     for di in range(nd - 1, -1, -1):
         s = _drop_def(spec, di)
         if s is not None:
@@ -805,12 +883,21 @@ def gen_input(pid, rng, tier):
                         s["defs"].append({"lib": D["lib"] if rng.random() < 0.8 else 0, "name": nm, "data": {}, "ports": [],
                                           "children": [], "cables": []})
                         kind = "dag+taken-name"
+        if rng.random() < 0.35:
+            s["hist_rounds"] = rng.choice([1, 1, 2, 3])
+            s["hist_seed"] = rng.randrange(1 << 30)
+            kind += "+history"
         return kind, s
     r = rng.random()
     if r < 0.3:
         return "chain", G.gen_chain(rng)
-    if r < 0.8:
+    if r < 0.7:
         return "tree", G.gen_spec(rng, "tree", max_depth=rng.choice([2, 3, 4, 5]), size=size)
+    if r < 0.8:
+        s = G.gen_spec(rng, "tree", max_depth=rng.choice([2, 3, 4]), size=size)
+        s["hist_rounds"] = rng.choice([1, 1, 2])
+        s["hist_seed"] = rng.randrange(1 << 30)
+        return "tree+history", s
     s = G.gen_spec(rng, "dag", named_insts=True, size=min(size, 1.0))
     s["pre_uniquify"] = True
     k = 0
@@ -851,9 +938,10 @@ def shard_worker(pid, tier, seed, shard_no, n_cases, budget_s):
                 res.sample({"kind": kind, "defs": len(spec["defs"]), "unfolded_instances": us, "tags": R.tags})
             for what, impl, model, sig in R.corr:
                 res.corr_mismatch(what, spec, impl, model, signature=sig)
+            fspec = R.materialized if R.materialized is not None else spec
             for sig, detail in R.spec:
-                if sig not in failing or len(json.dumps(spec)) < len(json.dumps(failing[sig][0])):
-                    failing[sig] = (spec, detail)
+                if sig not in failing or len(json.dumps(fspec)) < len(json.dumps(failing[sig][0])):
+                    failing[sig] = (fspec, detail)
         for sig, (spec, detail) in failing.items():
             small = shrink(pid, spec, sig, drv, time.time() + (20 if tier == "quick" else 90))
             R = evaluate(pid, small, drv)
